@@ -22,6 +22,7 @@ func (i *Interp) unop(fr *frame, instr *ssa.UnOp, x value) value {
 		if p == nil {
 			nilDeref("load " + instr.X.Name() + " in " + fr.fn.String())
 		}
+		i.raceAccess(fr, p, false, "a memory cell", instr.Pos())
 		return copyVal(*p)
 	case token.NOT:
 		return Not(x.(*Term))
@@ -362,6 +363,21 @@ func (i *Interp) rangeIter(x value, t types.Type) value {
 		if x != nil {
 			it.keys = append([]value{}, x.keys...)
 			it.vals = append([]value{}, x.vals...)
+			// Go ranges over a map in an unspecified order: with the harness parameter
+			// __maporder the order of every map range (<= 4 entries) is a symbolic
+			// permutation on which the executor forks
+			budget := 6
+			if b, ok := i.params["__maporder_budget"]; ok {
+				budget = b
+			}
+			if n := len(it.keys); i.params["__maporder"] == 1 && n > 1 && n <= 4 && i.mapOrderForks < budget {
+				i.mapOrderForks++
+				for k := 0; k < n-1; k++ {
+					c := i.ex.choose(n-k, "map-order")
+					it.keys[k], it.keys[k+c] = it.keys[k+c], it.keys[k]
+					it.vals[k], it.vals[k+c] = it.vals[k+c], it.vals[k]
+				}
+			}
 		}
 		return it
 	case *Term:
